@@ -38,10 +38,10 @@ Proof. exact DiskProofs.flush_decodes_nodup. Qed.
 Print Assumptions c11_durable.
 
 (* ---------------------------------------------------------------------------------------------- *)
-(* REGENERATED FROM THE SOURCE ON EVERY RUN (tools/gen -> Generated.g_code; Decisions.v): the decisions the model
+(* REGENERATED FROM THE SOURCE ON EVERY RUN (tools/gen -> Generated.g_code; DecBase.v, Dec*.v): the decisions the model
    takes at these points are the evaluations of the conditions the Go source has there, for all values of their
    variables. *)
-From GK Require Import GExpr Generated Decisions.
+From GK Require Import GExpr Generated DecBase DecCopyTo.
 From Coq Require Import String.
 
 (* CopyTo flushes after every flushEvery-th item, and never when flushEvery <= 0 *)
@@ -49,7 +49,7 @@ Theorem c11_flush_schedule_is_source :
   exists c, decisions "<lit:Store.CopyTo#1>" "flushEvery" = [c] /\
     forall fe n : Z, Z.le 0 n ->
       gtrue (upd (upd env0 "flushEvery" fe) "numItems" n) c = Some (Z.gtb fe 0 && Z.eqb (Z.modulo n fe) 0).
-Proof. exact Decisions.copyto_flush_schedule. Qed.
+Proof. exact DecCopyTo.copyto_flush_schedule. Qed.
 Print Assumptions c11_flush_schedule_is_source.
 
 Theorem c11_copyto_structure_is_source :
@@ -58,5 +58,5 @@ Theorem c11_copyto_structure_is_source :
   before "srcColl.VisitItemsAscendEx" "dstStore.Flush" (call_list "Store.CopyTo") = true /\
   In (SAssign [GVar "dstColl"] ":=" [GCall "dstStore.SetCollection" [GVar "name"; GVar "srcColl.compare"]])
      (match nth_error (body "Store.CopyTo") 4 with Some (SRange _ _ _ b) => b | _ => [] end).
-Proof. exact Decisions.copyto_structure. Qed.
+Proof. exact DecCopyTo.copyto_structure. Qed.
 Print Assumptions c11_copyto_structure_is_source.
